@@ -115,6 +115,13 @@ theorem noOverrun_of_within {q : Spec1} {t : Turn} {o : Obs}
   simp only [List.length_append] at this ⊢
   omega
 
+/-- What is known about the stream parser of a turn before looking at what it did: created by
+`from_parser` on the look-ahead, a legal history, fed a prefix of the rest of the wire. -/
+def Front (cap mc : Nat) (q : Spec1) (later : List Rec) (t : Turn) (o : Obs) : Prop :=
+  o.sp = Str.Parser.fromParser cap q.p.request o.sp.raw mc ∧ o.sp.raw.length ≤ cap ∧
+  o.spEnd = applyOps o.sp t.ops ∧ LegalAll o.sp t.ops ∧
+  o.sp.raw ++ C05.fedBytes t.ops <+: serAll (q.srecs ++ later)
+
 /-- **One turn.**  `u`: records left unread by the previous request (idle noise for this request
 parser); `later`: the records of the later requests.  The wire is `serAll (u ++ recs ++ srecs ++
 later)`, of which `rp.input` is already buffered (any amount), `t.fed` is fed during the turn in
@@ -129,9 +136,9 @@ theorem turn_spec {mc : Nat} {rp : Req.Parser} (hp : PInv rp) (hst : rp.state = 
     {later : List Rec} (hlater : ∀ r ∈ later, r.WF) {t : Turn} {fut : Bytes}
     (hwire : rp.input ++ t.fed ++ fut = serAll (u ++ q.recs ++ q.srecs ++ later))
     (hl : TurnLegal rp t) {o : Obs} {rp' : Req.Parser} (ht : turn rp t = some (o, rp'))
-    (hno : NoOverrun q t o) :
+    (hno : Front rp.cap mc q later t o → NoOverrun q t o) :
     o.r = q.p.request ∧ o.reqOut = idleOwed mc u ++ owedPreamble q.p mc q.recs ∧
-    o.sp = Str.Parser.fromParser rp.cap q.p.request o.sp.raw mc ∧
+    Front rp.cap mc q later t o ∧
     o.sp.raw ++ C05.fedBytes t.ops ++ fut = serAll (q.srecs ++ later) ∧
     rp.input ++ t.cs.flatten = serAll (u ++ q.recs) ++ o.sp.raw ∧
     (∃ d u', q.srecs = d ++ u' ∧ o.sp.raw ++ C05.fedBytes t.ops = serAll d ++ rp'.input ∧
@@ -190,6 +197,13 @@ theorem turn_spec {mc : Nat} {rp : Req.Parser} (hp : PInv rp) (hst : rp.state = 
   rw [hend] at hrp
   obtain ⟨e1, e2, e3, e4, e5, hb, -⟩ := C05.into_request_parser hsinvE (by rw [fc]; exact hcap24) hrp
   obtain ⟨d, rs, hsplit, hrs, hcons⟩ := handover_records hRwf hsinv hpay hpad hlops hw2 hb
+  have hfront : Front rp.cap mc q later t o := by
+    refine ⟨hspeq, ?_, hend, hlops, ⟨fut, hw2⟩⟩
+    have := hsinv.1
+    rw [← hcapsp]
+    unfold Str.Parser.freeStart at this
+    omega
+  have hno := hno hfront
   have hlen : (serAll d).length ≤ (serAll q.srecs).length := by
     have := congrArg List.length hcons
     unfold NoOverrun at hno
@@ -197,7 +211,7 @@ theorem turn_spec {mc : Nat} {rp : Req.Parser} (hp : PInv rp) (hst : rp.state = 
     simp only [List.length_append] at this hno
     omega
   obtain ⟨u', hu1, hu2⟩ := split_within hsplit.symm hlen
-  refine ⟨hr, by rw [hout, ho, owedPreamble_idle q.p mc u hu], hspeq, hw2, by rw [hFe, hraw], ?_, by rw [e1, hend], e5, e4, ?_, ?_⟩
+  refine ⟨hr, by rw [hout, ho, owedPreamble_idle q.p mc u hu], hfront, hw2, by rw [hFe, hraw], ?_, by rw [e1, hend], e5, e4, ?_, ?_⟩
   · refine ⟨d, u', hu1, by rw [e1]; exact hcons, by rw [e1, hrs, hu2], ?_⟩
     intro e he
     exact hq.2 e (by rw [hu1]; exact List.mem_append_right _ he)
@@ -214,16 +228,17 @@ beginning of `serAll (u' ++ later requests)`, `u'` the unread records. -/
 def Results (cap mc : Nat) : List Rec → List Spec1 → List Turn → List Obs → Prop
   | u, q :: qs, t :: ts, o :: os =>
     o.r = q.p.request ∧ o.reqOut = idleOwed mc u ++ owedPreamble q.p mc q.recs ∧
-    o.sp = Str.Parser.fromParser cap q.p.request o.sp.raw mc ∧
-    o.sp.raw ++ C05.fedBytes t.ops <+: serAll (q.srecs ++ wireRecs qs) ∧
+    Front cap mc q (wireRecs qs) t o ∧
     ∃ d u', q.srecs = d ++ u' ∧ (∀ e ∈ u', IdleNoise e) ∧
       o.sp.raw ++ C05.fedBytes t.ops = serAll d ++ o.spEnd.raw ∧
       o.spEnd.raw <+: serAll (u' ++ wireRecs qs) ∧ Results cap mc u' qs ts os
-  | _, [], [], [] => True
+  | _, _, [], [] => True
   | _, _, _, _ => False
 
-def NoOverruns : List Spec1 → List Turn → List Obs → Prop
-  | q :: qs, t :: ts, o :: os => NoOverrun q t o ∧ NoOverruns qs ts os
+/-- per turn: the stream parser did not run over the end of its request's records (which may be
+shown using what `Front` says about it) -/
+def NoOverruns (cap mc : Nat) : List Spec1 → List Turn → List Obs → Prop
+  | q :: qs, t :: ts, o :: os => (Front cap mc q (wireRecs qs) t o → NoOverrun q t o) ∧ NoOverruns cap mc qs ts os
   | _, _, _ => True
 
 theorem chain_cons {rp : Req.Parser} {t : Turn} {ts : List Turn} {os : List Obs} {rpK : Req.Parser}
@@ -239,31 +254,30 @@ theorem chain_cons {rp : Req.Parser} {t : Turn} {ts : List Turn} {os : List Obs}
     · cases h
   · cases h
 
-/-- **k turns on one shared buffer.** -/
-theorem chain_spec {cap mc : Nat} : ∀ (qs : List Spec1) (ts : List Turn) (os : List Obs) (rp : Req.Parser)
+/-- **k turns on one shared buffer**, `k ≤` the number of requests on the wire (so the bytes fed may
+reach into requests that are not served yet: look-ahead at the last hand-off too). -/
+theorem chain_spec {cap mc : Nat} : ∀ (ts : List Turn) (qs : List Spec1) (os : List Obs) (rp : Req.Parser)
     (u : List Rec) (fut : Bytes) (rpK : Req.Parser),
     (∀ q ∈ qs, q.OK) → PInv rp → rp.state = .header → rp.maxConns = mc → rp.cap = cap →
-    (∀ e ∈ u, IdleNoise e) → ts.length = qs.length →
+    (∀ e ∈ u, IdleNoise e) → ts.length ≤ qs.length →
     rp.input ++ ts.flatMap Turn.fed ++ fut = serAll (u ++ wireRecs qs) →
-    ChainLegal rp ts → chain rp ts = some (os, rpK) → NoOverruns qs ts os →
+    ChainLegal rp ts → chain rp ts = some (os, rpK) → NoOverruns cap mc qs ts os →
     Results cap mc u qs ts os ∧ PInv rpK ∧ rpK.state = .header ∧ rpK.maxConns = mc ∧ rpK.cap = cap ∧
-      ∃ uK, (∀ e ∈ uK, IdleNoise e) ∧ rpK.input ++ fut = serAll uK := by
-  intro qs
-  induction qs with
+      ∃ uK, (∀ e ∈ uK, IdleNoise e) ∧ rpK.input ++ fut = serAll (uK ++ wireRecs (qs.drop ts.length)) := by
+  intro ts
+  induction ts with
   | nil =>
-    intro ts os rp u fut rpK _ hp hst hmc hcap hu hlen hwire _ hch _
-    cases ts with
-    | cons t ts => simp at hlen
-    | nil =>
-      simp only [chain, Option.some.injEq, Prod.mk.injEq] at hch
-      obtain ⟨rfl, rfl⟩ := hch
-      refine ⟨trivial, hp, hst, hmc, hcap, u, hu, ?_⟩
-      simpa [wireRecs] using hwire
-  | cons q qs ih =>
-    intro ts os rp u fut rpK hqs hp hst hmc hcap hu hlen hwire hleg hch hno
-    cases ts with
+    intro qs os rp u fut rpK _ hp hst hmc hcap hu _ hwire _ hch _
+    simp only [chain, Option.some.injEq, Prod.mk.injEq] at hch
+    obtain ⟨rfl, rfl⟩ := hch
+    refine ⟨?_, hp, hst, hmc, hcap, u, hu, ?_⟩
+    · cases qs <;> trivial
+    · simpa using hwire
+  | cons t ts ih =>
+    intro qs os rp u fut rpK hqs hp hst hmc hcap hu hlen hwire hleg hch hno
+    cases qs with
     | nil => simp at hlen
-    | cons t ts =>
+    | cons q qs =>
       obtain ⟨o, rp', os', ht, hch', rfl⟩ := chain_cons hch
       obtain ⟨hl1, hl2⟩ := hleg
       obtain ⟨hno1, hno2⟩ := hno
@@ -274,30 +288,29 @@ theorem chain_spec {cap mc : Nat} : ∀ (qs : List Spec1) (ts : List Turn) (os :
         rw [wireRecs_cons] at hwire
         simpa [List.append_assoc] using hwire
       obtain ⟨h1, h2, h3, h4, -, ⟨d, u', h6, h7, h8, h9⟩, h10, h11, h12, h13, h14⟩ :=
-        turn_spec hp hst hmc hu hq (wireRecs_wf hqs') hwire1 hl1 ht hno1
-      obtain ⟨r1, r2, r3, r4, r5, uK, r6, r7⟩ := ih ts os' rp' u' fut rpK hqs' h11 h12 h13 (h14.trans hcap) h9
+        turn_spec hp hst hmc hu hq (wireRecs_wf hqs') hwire1 hl1 ht (by rw [hcap]; exact hno1)
+      obtain ⟨r1, r2, r3, r4, r5, uK, r6, r7⟩ := ih qs os' rp' u' fut rpK hqs' h11 h12 h13 (h14.trans hcap) h9
         (by simpa using hlen) (by rw [List.append_assoc]; exact h8) (hl2 o rp' ht) hch' hno2
-      refine ⟨⟨h1, h2, by rw [← hcap]; exact h3, ⟨_, h4⟩, d, u', h6, h9, by rw [← h10]; exact h7,
-        ⟨_, by rw [← h10]; exact h8⟩, r1⟩, r2, r3, r4, r5, uK, r6, r7⟩
+      refine ⟨⟨h1, h2, by rw [← hcap]; exact h3, d, u', h6, h9, by rw [← h10]; exact h7,
+        ⟨_, by rw [← h10]; exact h8⟩, r1⟩, r2, r3, r4, r5, uK, r6, ?_⟩
+      simpa using r7
 
-/-- **(1) The k requests are the k preambles' requests** — what k separate connections yield
-(`C01.C01_oneshot`: `p.request` is the request a fresh parser makes of the preamble alone). -/
-theorem results_requests {cap mc : Nat} : ∀ (qs : List Spec1) (ts : List Turn) (os : List Obs) (u : List Rec),
-    Results cap mc u qs ts os → os.map (·.r) = qs.map (·.p.request) := by
-  intro qs
-  induction qs with
-  | nil =>
-    intro ts os u h
-    cases ts <;> cases os <;> first | rfl | exact h.elim
-  | cons q qs ih =>
-    intro ts os u h
-    cases ts with
-    | nil => cases os <;> exact h.elim
-    | cons t ts =>
-      cases os with
+/-- **(1) The requests served are the first requests sent, in order** — what separate connections
+yield (`C01.C01_oneshot`: `p.request` is the request a fresh parser makes of the preamble alone). -/
+theorem results_requests {cap mc : Nat} : ∀ (os : List Obs) (qs : List Spec1) (ts : List Turn) (u : List Rec),
+    Results cap mc u qs ts os → os.map (·.r) = (qs.take os.length).map (·.p.request) := by
+  intro os
+  induction os with
+  | nil => intro qs ts u _; simp
+  | cons o os ih =>
+    intro qs ts u h
+    cases qs with
+    | nil => cases ts <;> exact h.elim
+    | cons q qs =>
+      cases ts with
       | nil => exact h.elim
-      | cons o os =>
-        obtain ⟨h1, -, -, -, d, u', -, -, -, -, hr⟩ := h
-        simp only [List.map_cons, h1, ih ts os u' hr]
+      | cons t ts =>
+        obtain ⟨h1, -, -, d, u', -, -, -, -, hr⟩ := h
+        simp only [List.map_cons, List.length_cons, List.take_succ_cons, h1, ih qs ts u' hr]
 
 end Fcgi.C05C
